@@ -1,6 +1,7 @@
 import Driver.C19Mon
 import OidcModel.Model.DiscoveryModel
 import OidcModel.Model.ProviderC19Model
+import OidcModel.Model.HonourC19Model
 open Kv Drv
 
 namespace Drv.C19
@@ -118,6 +119,21 @@ def agreeOptions (l : Line) : String × Bool :=
      str l "x.atiss" == atv.issuer && str l "x.hintiss" == hint.issuer &&
      natList l "x.trace" == trace)
 
+/-! #### kind=honour: the regenerated request-object functions and the regenerated PKCE check on the same flow -/
+
+def honModelOf (l : Line) : HonObs :=
+  honModel (bool l "f.reqobj") (str l "d.issuer") "probe" (parseHonRequest l) (str l "v") (str l "w")
+
+/-- agreement: same answer of the authorization endpoint (a refused request object: any refusal), the same request handed to the storage,
+    the same accept / refuse per presented verifier -/
+def agreeHonour (l : Line) : Bool :=
+  let m := honModelOf l
+  let o := parseHonObs l
+  if m.authorize != "login" then o.authorize != "login"
+  else o.authorize == "login" && o.stored == m.stored &&
+    o.token.length == m.token.length &&
+    (o.token.zip m.token).all (fun (a, b) => a.1 == b.1 && ((a.2 == 200) == (b.2 == 200)))
+
 def showRes (r : Go.R Unit) : String := match r with | .ok _ => "ok" | .error e => "err:" ++ e
 
 def modelLine (l : Line) : String × Bool :=
@@ -131,6 +147,9 @@ def modelLine (l : Line) : String × Bool :=
       | some m => s!"iss={esc m.doc.Issuer};{docSummary m.doc}"
       | none => "provider-not-constructible"
     (ms, str l "obs" != "panic" && agreeVisit l)
+  | "honour" =>
+    let m := honModelOf l
+    (s!"az={esc m.authorize};tok={String.intercalate "/" (m.token.map fun t => toString t.2)}", str l "obs" != "panic" && agreeHonour l)
   | "issuer" =>
     let m := constructIssuer (parseOracle l "s") (.static (str l "s")) (bool l "insecure")
     (showRes m, showRes m == observedOf l)
